@@ -134,16 +134,21 @@ def logLen (r : Reader AnyCache) : Nat :=
 def showOut (o : Out) (calls : List String) : String :=
   s!"{hexOfNats o.bytes}/{errStr o.err}/{o.chunk.1.1},{o.chunk.1.2},{o.chunk.2.1},{o.chunk.2.2}/{";".intercalate calls}"
 
-/-- bookkeeping for cache objects that are attached again later (`c=<k>`): the k-th cache created by the history,
-with the state and the remaining victim hints it had when it was detached -/
+/-- which of the caller's cache objects (numbered in creation order) is attached and which are detached, in the
+order of `Reader.parked`, with the victim hints each had left when it was detached -/
 structure Objs where
   cur : Option Nat := none
   made : Nat := 0
-  saved : List (Nat × AnyCache × List Int) := []
+  ids : List Nat := []
+  hints : List (Nat × List Int) := []
 
+/-- the attached object (if any) is replaced: it goes to the end of `parked` -/
 def Objs.park (ob : Objs) (r : Reader AnyCache) : Objs :=
   match ob.cur, r.cache with
-  | some k, some a => { ob with cur := none, saved := (k, a, r.hints) :: ob.saved.filter (fun p => p.1 != k) }
+  | some k, some _ =>
+    let ids' := ob.ids ++ [k]
+    let hints' := (k, r.hints) :: ob.hints.filter (fun p => p.1 != k)
+    { ob with cur := none, ids := ids', hints := hints' }
   | _, _ => { ob with cur := none }
 
 def runOps (cfg : Cfg) (f : File) : Reader AnyCache → Objs → List String → List String → List String
@@ -156,13 +161,19 @@ def runOps (cfg : Cfg) (f : File) : Reader AnyCache → Objs → List String →
       match parseNat (tok.drop 2).toString with
       | none => ("?" :: acc).reverse
       | some k =>
-        let ob1 := ob.park r
-        match ob1.saved.find? (fun p => p.1 == k) with
+        if ob.cur == some k then
+          -- SetCache(the cache that is attached already)
+          runOps cfg f r ob rest (showOut ⟨[], .ok, (r.chunkBegin, r.chunkEnd)⟩ [] :: acc)
+        else
+        match ob.ids.idxOf? k with
         | none => ("?" :: acc).reverse
-        | some (_, a, hs) =>
-          match step cfg anyOps f r (.setCache (some a) hs) with
+        | some i =>
+          let hs := ((ob.hints.find? (fun p => p.1 == k)).map (·.2)).getD []
+          let ob1 := ob.park r
+          match step cfg anyOps f r (.reattach i hs) with
           | .error e => (faultStr e :: acc).reverse
-          | .ok (r', out) => runOps cfg f r' { ob1 with cur := some k } rest (showOut out [] :: acc)
+          | .ok (r', out) =>
+            runOps cfg f r' { ob1 with cur := some k, ids := ob1.ids.eraseIdx i } rest (showOut out [] :: acc)
     else
     match parseOp tok with
     | none => ("?" :: acc).reverse
